@@ -375,8 +375,11 @@ func (p *Persister) flushNow(ctx context.Context, batch map[string]persistData, 
 
 	tx, ctx, err := p.db.NewTransaction(ctx, true)
 	if err != nil {
-		// TODO make sure error is propagated back to the runtime and Conduit shuts down
+		// The write did not happen: tell every callback (a source must never
+		// be acked for it, and must learn that persisting failed) and complete
+		// this generation, otherwise WaitPendingWrites would block forever.
 		p.logger.Err(ctx, err).Msg("error creating new transaction")
+		p.runCallbacks(batch, st, prev, err)
 		return
 	}
 
